@@ -72,17 +72,19 @@ PROPS = {
                 "(create/modify/rename/delete mixed), delete-user, get-user, login attempts and restarts, with logins/names/passwords "
                 "from pools of awkward byte strings that are legal file names; after every step list-users and the accounts directory "
                 "are compared with a model map, renamed-away/deleted logins are probed with every password ever used, and at the end "
-                "every model login x every password is tried and a fresh account manager is loaded from the directory; new-user also with logins of 245-250 bytes (the account file name fits, the temporary name used while writing does not: a refused creation must leave no trace in any view); TestC15Burst: 2-5 "
+                "every model login x every password is tried and a fresh account manager is loaded from the directory; new-user also with logins of 245-250 bytes (the account file name fits, the temporary name used while writing does not: a refused creation must leave no trace in any view); TestC15Unwritable: an edit (set-user / update-user; name, privileges, password set / kept / removed) of an account whose file cannot be rewritten (login of 247-250 bytes): the listing decides whether the edit counts, and files, a fresh manager and the logins must agree with it; TestC15Burst: 2-5 "
                 "administrators create / set / delete the same logins at the same instant for 4-12 rounds; which request wins is not constrained, "
                 "the listing is taken as reference and the files, a fresh manager and the logins that authenticate must equal it after every round; "
                 "non-trivial = a rename or delete followed by login attempts with the old login, or a restart after >= 3 edits; "
                 "distinct = hash(history)",
         "assumptions": ["edits of accounts with live sessions and renames onto existing logins are excluded by construction (outside the statement)"],
         "quick": {"runs": [{"test": "^TestC15$", "shards": 12, "checks": 50, "timeout": 600},
-                           {"test": "^TestC15Burst$", "shards": 4, "checks": 25, "timeout": 600},
+                           {"test": "^TestC15Burst$", "shards": 3, "checks": 25, "timeout": 600},
+                           {"test": "^TestC15Unwritable$", "shards": 1, "checks": 60, "timeout": 600},
                            {"test": "^TestC15LeadingNewline$", "shards": 1, "checks": 30, "timeout": 300}]},
         "thorough": {"runs": [{"test": "^TestC15$", "shards": 12, "checks": 1500, "timeout": 3400},
-                              {"test": "^TestC15Burst$", "shards": 4, "checks": 1500, "timeout": 3400},
+                              {"test": "^TestC15Burst$", "shards": 3, "checks": 1500, "timeout": 3400},
+                              {"test": "^TestC15Unwritable$", "shards": 1, "checks": 3000, "timeout": 3400},
                               {"test": "^TestC15LeadingNewline$", "shards": 1, "checks": 300, "timeout": 600}]},
     },
     "C05": {
